@@ -76,3 +76,30 @@ def assemble(p, extra_util='', extra_bookkeeping='', extra_portfolio='', extra_t
 def build(ctx):
     p = parts(ctx)
     return shim('base') + "verus! {\n" + assemble(p) + "} // verus!\nfn main() {}\n"
+
+
+# default property tags of a function (first match wins); clause markers (//@ ...) in the overlay take precedence
+TAG_RULES = [
+    (r'delta_list::fn (lemma_step_conservation|lemma_chain_acb_some|theorem_conservation|lemma_sfla_sum|lemma_no_flag|lemma_sale_|lemma_pend_step|lemma_nonreg_frac)', ['C03']),
+    (r'delta_list::fn lemma_sells_', ['C05']),
+    (r'delta_list::fn (lemma_step_scales|lemma_scale_|lemma_ratio_scale_invariant)', ['C15']),
+    (r'delta_list::fn lemma_opening_equiv', ['C16']),
+    (r'delta_list::fn get_delta_superficial_loss_info', ['C02']),
+    (r'delta_list::fn sanity_check_ptfs', ['C04']),
+    (r'delta_list::', ['C01']),
+    (r'superficial_loss::', ['C02']),
+    (r'portfolio_status::.*fn new', ['C04', 'C16']),
+    (r'portfolio_status::.*fn (get_next_pre_status|get_latest_post_status_for_affiliate)', ['C01', 'C04']),
+    (r'portfolio_status::', ['C04']),
+    (r'util::decimal', ['C04', 'C01']),
+    (r'util::math::fn lemma_', ['C03', 'C06']),
+    (r'util::math::', ['C02']),
+    (r'model::tx::\{impl (PartialOrd|Ord) for', ['C07']),
+    (r'model::tx::.*fn (try_from|buy_or_sell_common_attrs_from_csv_tx|get_valid_exchange_rate)', ['C01', 'C12']),
+    (r'model::tx::.*fn (is_reverse_split|pre_to_post_factor)', ['C15', 'C01']),
+    (r'model::tx::', ['C01']),
+    (r'model::currency::', ['C12']),
+    (r'model::txdelta::.*fn (is_loss_sale|is_superficial_loss)', ['C10']),
+    (r'model::txdelta::', ['C01']),
+    (r'model::affiliate::', ['C04']),
+]
